@@ -238,6 +238,8 @@ def _worker_item(arg: Tuple[int, Any, str, float]) -> Tuple[int, dict]:
 def run_property(modname: str, tier: str, seed: int, jobs: int, budget_s: float) -> dict:
     mod = importlib.import_module(modname)
     items = list(mod.scenarios(tier))
+    if os.environ.get("VERIF_ONLY"):  # development aid: a Python expression over p (one scenario's parameters)
+        items = [p for p in items if eval(os.environ["VERIF_ONLY"], {"p": p})]
     rnd = random.Random(seed)
     order = list(range(len(items)))
     rnd.shuffle(order)
